@@ -108,6 +108,11 @@ def project(prop, op, d):
 def spec_op(op, g):
     """the SPEC op that judges op, given the implementation's parsed output"""
     kind = op[0]
+    if kind == "RD3":
+        return "SPEC3 %s %s" % (op[1], op[3])
+    if kind == "RD2":
+        kb, kt, ke = judge.v2_tenths(g)
+        return "SPEC2 %s %s %s %s %s" % (op[1], op[3], kb, kt, ke)
     if kind in ("D3", "N3"):
         return "SPEC3 %s %s" % (op[1], op[2])
     if kind == "S3":
@@ -156,9 +161,21 @@ def run_decode_stream(prop, name, ops, exhaustive=False, known=None):
         spl = spmap.get(i, "")
         sp = core.parse_kv(spl)
         out = judge.V()
+        reuse = f[0] in ("RD3", "RD2")
+        if reuse:
+            # a decoder object used before: judged as a decode of the second string, but which strings such an object
+            # accepts and what it reports on rejection is not specified (C07/C08/C11 speak of constructor results)
+            f = [f[0][1:], f[1], f[3]]
         full = f[0] in ("D3", "D2", "N3", "N2")
         jf = judge.judge_v3 if f[0] in ("D3", "S3", "N3") else judge.judge_v2
         jf(f, g, sp, out, full)
+        if reuse:
+            for p in ("C07", "C08", "C11"):
+                out.by.pop(p, None)
+            if g.get("r") != "1":
+                for p in list(out.by):
+                    if p != "C12":
+                        out.by.pop(p)
         if prop in FACT_PROPS:
             # properties that relate a result to itself (grid and band, neutrality, temporal <= base): the two sides are
             # compared on those facts, evaluated by the same function, not on the values of the scores (C01-C05's business)
@@ -169,7 +186,7 @@ def run_decode_stream(prop, name, ops, exhaustive=False, known=None):
         else:
             pg = project(prop, f, g)
             pm = project(prop, f, m)
-        if pg != pm and _comparable(prop, g, m):
+        if pg != pm and _comparable(prop, g, m) and not (reuse and prop in ("C07", "C08", "C11")):
             res.mismatch.append((op, go[i], mo[i]))
         for p, msgs in out.by.items():
             if p == prop:
